@@ -1,5 +1,6 @@
 //! cachelito verification harness (see /verif/DESIGN.md).
 pub mod c02;
+pub mod c20;
 pub mod core_l1;
 pub mod infra;
 pub mod keys;
